@@ -47,7 +47,7 @@ HdrShape(l, name) ==
     [] name = "rep"   -> <<H(l, 1, FALSE, FALSE, <<1, 2, 1>>)>>
     [] name = "mixed" -> <<H(l, 1, TRUE, FALSE, <<1>>)>>
     [] name = "bin"   -> <<H(l, 1, FALSE, TRUE, <<1>>)>>
-    [] name = "multi" -> <<H(l, 1, TRUE, FALSE, <<1, 2>>), H(l, 2, FALSE, TRUE, <<1, 2>>), H(l, 3, FALSE, FALSE, <<1>>)>>
+    [] name = "multi" -> <<H(l, 1, TRUE, FALSE, <<1, 2>>), H(l, 2, TRUE, TRUE, <<1, 2>>), H(l, 3, FALSE, FALSE, <<1>>)>>   \* incl. a mixed-case -bin name
     [] OTHER          -> <<>>
 
 Tok(n)        == [k |-> "tok", t |-> n]                          \* an opaque error detail
